@@ -21,6 +21,7 @@ class Gen:
         self.r = rnd
         self.family = family or rnd.choice(FAMILIES)
         self.documented = documented
+        self.dependent_draws = set()
         self.params = {}        # name -> kind ("prob" | "coef")
         self.fin = {}           # finite var -> sorted list of Fractions (intended domain)
         self.nums = []          # numeric vars in dependency order
@@ -143,13 +144,14 @@ class Gen:
         lower = self.nums[:idx]
         k = self.r.random()
         coefvars = list(self.draws.keys()) + list(self.fin.keys())
+        indep = [c for c in coefvars if c not in self.dependent_draws]
         term_const = H.num(self.r.choice(SMALL))
         if k < 0.2:
             return H.ex(H.add(H.var(x), term_const))
         if k < 0.4 and coefvars:
             c = self.r.choice(coefvars)
             self.features.add("coef-var")
-            if self.coin(0.3) and c in self.draws:
+            if self.coin(0.3) and c in self.draws and c not in self.dependent_draws:
                 return H.ex(H.add(H.var(x), H.pw(H.var(c), 2)))
             return H.ex(H.add(H.var(x), H.mul(self.coef(), H.var(c))))
         if k < 0.55 and self.family in ("choice", "param", "branchy", "poly"):
@@ -168,9 +170,9 @@ class Gen:
                 y = self.r.choice(others)
                 self.features.add("linear-cross")
                 ce = self.coef()
-                if coefvars and self.coin(0.25):
+                if indep and self.coin(0.25):
                     self.features.add("coef-var-cross")
-                    ce = H.var(self.r.choice(coefvars))
+                    ce = H.var(self.r.choice(indep))
                     if self.coin(0.35):
                         # a squared draw / finite variable as coefficient of a linear cross term (still a linear dependency)
                         self.features.add("coef-var-squared-cross")
@@ -295,9 +297,14 @@ class Gen:
         for f in order:
             body += self.finite_update(f)
         for d in dnames:
-            mv = r.choice(self.nums) if (self.nums and self.coin(0.3)) else None
+            # a draw whose parameter is a program variable makes the drawn variable depend on it: only in linear mode, and such a
+            # draw is then used additively only (its square or a product with a variable would close a non-linear cycle, which
+            # is outside the documented class)
+            mv = r.choice(self.nums) if (self.nums and self.coin(0.3) and mode == "linear") else None
             rhs = self.cont_draw(mv)
             self.draws[d] = rhs
+            if any(a[0] != "num" for a in rhs[2]):
+                self.dependent_draws.add(d)
             body.append(H.assign(d, rhs))
         # 2. numeric updates, possibly under ifs
         updates = list(self.nums)
